@@ -35,6 +35,7 @@ type C17Spec struct {
 	Strategy   string `json:"strategy,omitempty"`   // always | ifpossible
 	SignerWho  string `json:"signerWho,omitempty"`  // signer | other: who actually signed
 	SecondSign bool   `json:"secondSign,omitempty"` // prov signed by the other key although the keyring trusts only signer
+	Rekey      string `json:"rekey,omitempty"`      // the keyring FILE is rewritten with this content after the first download; the chart is then downloaded again
 }
 
 type pgpKeys struct {
@@ -154,6 +155,9 @@ func ExecuteC17(t *testing.T, plan *Plan) *RunResult {
 	var ver *provenance.Verification
 	var destfile string
 	panicked := ""
+	var opErr2 error
+	var destfile2, panicked2 string
+	secondRan := false
 	synctest.Test(t, func(t *testing.T) {
 		n := NewNetSim()
 		defer n.Close()
@@ -192,6 +196,21 @@ func ExecuteC17(t *testing.T, plan *Plan) *RunResult {
 			}()
 			destfile, ver, opErr = dl.DownloadTo("repo0/mychart0", "1.0.0", dest)
 		}()
+		if c.Rekey != "" && panicked == "" {
+			// trust changes between two operations of one process: same keyring path, other content
+			writeKeyring(keyring, c.Rekey)
+			dest2 := filepath.Join(dir, "dest2")
+			os.MkdirAll(dest2, 0o755)
+			func() {
+				defer func() {
+					if r := recover(); r != nil {
+						panicked2 = fmt.Sprint(r)
+					}
+				}()
+				destfile2, _, opErr2 = dl.DownloadTo("repo0/mychart0", "1.0.0", dest2)
+			}()
+			secondRan = true
+		}
 	})
 	violate := func(clause, cause, detail string) {
 		res.Violations = append(res.Violations, Violation{"C17", clause, "download-verify", cause, detail, 0})
@@ -253,10 +272,32 @@ func ExecuteC17(t *testing.T, plan *Plan) *RunResult {
 		}
 		res.Probes["ifpossible"]++
 	}
+	if secondRan {
+		res.Checks += 2
+		res.Probes["keyring-rewritten"]++
+		trusted2 := (who == "signer" && (c.Rekey == "signer" || c.Rekey == "signer+other")) || (who == "other" && (c.Rekey == "other" || c.Rekey == "signer+other"))
+		accepted2 := opErr2 == nil && panicked2 == ""
+		cause2 := cause + ",rekey=" + c.Rekey
+		if panicked2 != "" {
+			violate("no-panic", cause2, "verification panicked: "+trunc(panicked2, 300))
+		}
+		if accepted2 && !trusted2 {
+			violate("accept-only-trusted-key", cause2, "after the keyring file was rewritten without the signer's key, a second download of the chart was still accepted")
+		}
+		if accepted2 && trusted2 {
+			if got, _ := os.ReadFile(destfile2); !bytes.Equal(got, archive) {
+				violate("accept-only-untampered", cause2, "second download was accepted although the archive bytes differ from the signed original")
+			}
+		}
+		if !accepted2 && trusted2 && intact {
+			violate("intact-trusted-passes", cause2, fmt.Sprintf("after the signer's key was added to the keyring file, an untampered chart was still rejected: %v", opErr2))
+		}
+		accepted = accepted && accepted2
+	}
 	if c.Target != "" {
 		res.FaultsFired["transit-"+c.Corrupt]++
 	}
-	res.Outcome = fmt.Sprintf("c17 %s accepted=%v err=%q", cause, accepted, trunc(fmt.Sprint(opErr), 100))
+	res.Outcome = fmt.Sprintf("c17 %s rekey=%s accepted=%v err=%q", cause, c.Rekey, accepted, trunc(fmt.Sprint(opErr), 100))
 	res.Signature = bodyHash([]byte(fmt.Sprintf("%s|%v|%d", cause, accepted, c.Pos)))
 	res.NonTrivial = true
 	res.Events = 3
@@ -289,6 +330,9 @@ func genC17(seed, index uint64, tier string) *Plan {
 	}
 	if g.Chance(0.3) {
 		c.Strategy = "ifpossible"
+	}
+	if g.Chance(0.25) {
+		c.Rekey = g.Pick("signer", "other", "empty", "signer+other")
 	}
 	p.Net = &NetSpec{Path: "c17", C17: c}
 	p.Variant = "c17"
